@@ -291,11 +291,30 @@ def r5_1(ctx):
                     else:
                         el = sym.len_of(expr, nid)
                     adds = [l for l in ols if id(l[3]) not in handled_ls and l[0] == "add"]
-                    # choose the += in the same innermost block
-                    same = [l for l in adds if _same_block(mod, st, l[3])] or adds
+                    others_ts = [t[3] for t in ots if t[3] is not st]
+                    # the length update that belongs to this append lies on the same path, with no other text store in between
+                    on_path = [l for l in adds if _reaches_without(g, st, l[3], others_ts) or _reaches_without(g, l[3], st, others_ts)]
+                    same = [l for l in on_path if _same_block(mod, st, l[3])] or on_path
+                    if not same and el is not None:
+                        # `_length = <length read before the append> + n`
+                        old_ = sym.len_of(ast.parse(f"{obj}.plain", mode="eval").body, nid)
+                        for l in ols:
+                            if id(l[3]) in handled_ls or l[0] != "set" or not (_reaches_without(g, st, l[3], others_ts) or _reaches_without(g, l[3], st, others_ts)):
+                                continue
+                            lv_ = sym.int_of(l[2], nid_of(l[3]))
+                            if lin_eq(_canon(lv_), _canon(_add(old_, el))):
+                                handled_ls.add(id(l[3]))
+                                ctx.ok(where, f"{obj}: _length set to the old length plus the appended fragment's length ({show(el)})", f.fq)
+                                same = None
+                                break
+                        if same is None:
+                            continue
                     if not same or el is None:
-                        ctx.violation(f.fq, short(st), where, f"a fragment is appended to {obj}._text but {obj}._length is not increased by its length in the same block")
-                        continue
+                        any_len = [l for l in ols if _reaches_without(g, st, l[3], []) or _reaches_without(g, l[3], st, [])]
+                        if not any_len:
+                            ctx.violation(f.fq, short(st), where, f"a fragment is appended to {obj}._text but {obj}._length is not increased by its length in the same block")
+                            continue
+                        raise AnalysisError(f"{f.fq}: cannot pair `{short(st)}` with the update of {obj}._length that accounts for it")
                     l = same[0]
                     handled_ls.add(id(l[3]))
                     lv = sym.int_of(l[2], nid_of(l[3]))
